@@ -270,6 +270,25 @@ func checkC02Step(w *world.World, o kit.Obs, rec *kit.Recorder) error {
 	if run.Amount.Sign() <= 0 {
 		return fmt.Errorf("success with a non-positive forwarded amount %s", run.Amount)
 	}
+	// the orbiter account is only a conduit: apart from the sweep of what sat there before, its
+	// balance must not change in any denomination ("no other account's balance changes")
+	orb := world.OrbiterAddr.String()
+	for k, d := range o.Delta {
+		addr, denom := splitKey(k)
+		if addr != orb {
+			continue
+		}
+		wantOrb := new(big.Int)
+		if denom == t.Denom && o.PreOrbiter != nil {
+			wantOrb = new(big.Int).Neg(o.PreOrbiter)
+		}
+		if d.Cmp(wantOrb) != 0 {
+			return fmt.Errorf("successful transfer changed the orbiter account's %s balance by %s (expected %s: only the sweep of the pre-existing balance)", denom, d, wantOrb)
+		}
+	}
+	if o.PreOrbiter != nil && o.PreOrbiter.Sign() > 0 && o.Delta.Get(orb, t.Denom).Sign() == 0 {
+		return fmt.Errorf("the pre-existing orbiter balance of %s %s was not swept", o.PreOrbiter, t.Denom)
+	}
 	want := kit.ExpectedDelta(w, t, run, o.PreOrbiter)
 	if !want.Equal(o.Delta) {
 		return fmt.Errorf("ledger delta differs from the model\n  observed: %s\n  expected: %s", o.Delta, want)
